@@ -161,6 +161,24 @@ nd::harnesses! {
     #[kani::unwind(5)] fn c10_pool_k3() { pool_history::<3>() }
     #[kani::unwind(6)] fn c10_pool_k4() { pool_history::<4>() }
 
+    /// A handle built from an Arc that also has a Weak observer: the last handle still releases the last strong reference
+    /// (the value is dropped, the Weak can no longer be upgraded).
+    #[kani::unwind(4)]
+    fn c10_last_handle_with_weak_observer() {
+        reset();
+        let v: u32 = nd::any();
+        let arc = Arc::new(Pay::new(v));
+        let weak = Arc::downgrade(&arc);
+        let a: CArc<Pay> = CArc::from(arc);
+        let b = a.clone();
+        assert!(Arc::strong_count(&weak.upgrade().unwrap()) == 3);
+        drop(a);
+        assert!(drops() == 0 && weak.upgrade().is_some());
+        drop(b);
+        assert!(drops() == 1 && live() == 0, "the value is dropped with the last handle");
+        assert!(weak.upgrade().is_none() && weak.strong_count() == 0);
+    }
+
     /// From a ZERO-SIZED value with a destructor: dropped exactly when the last handle goes.
     #[kani::unwind(4)]
     fn c10_zero_sized_value_with_destructor() {
